@@ -675,15 +675,17 @@ void TasmanianSparseGrid::mapConformalCanonicalToTransformed(int num_dimensions,
             c[j].resize(conformal_asin_power[j] + 1);
             p[j].resize(conformal_asin_power[j] + 1);
         }
-        double lgamma_half = std::lgamma(0.5);
+        // log_half_gamma holds log(Gamma(k + 1/2) / Gamma(1/2)) = sum_{i < k} log(i + 1/2), i.e., lgamma(k + 0.5) - lgamma(0.5)
+        // std::lgamma() is not used since (on POSIX systems) it writes to the global signgam and is not safe to call from const methods running in parallel
         std::vector<double> cm(num_dimensions, 0.0);
         for(int j=0; j<num_dimensions; j++){
-            double factorial = 0.0;
+            double factorial = 0.0, log_half_gamma = 0.0;
             for(int k=0; k<=conformal_asin_power[j]; k++){
                 p[j][k] = (double)(2*k+1);
-                c[j][k] = std::lgamma(0.5 + ((double) k)) - lgamma_half - std::log(p[j][k]) - factorial;
+                c[j][k] = log_half_gamma - std::log(p[j][k]) - factorial;
                 cm[j] += std::exp(c[j][k]);
                 factorial += std::log((double)(k+1));
+                log_half_gamma += std::log(0.5 + ((double) k));
             }
         }
         Utils::Wrapper2D<double> xwrap(num_dimensions, x);
@@ -713,17 +715,17 @@ template<typename FloatType> void TasmanianSparseGrid::mapConformalTransformedTo
             dc[j].resize(conformal_asin_power[j] + 1);
             dp[j].resize(conformal_asin_power[j] + 1);
         }
-        double lgamma_half = std::lgamma(0.5);
         std::vector<double> cm(num_dimensions, 0.0);
         for(int j=0; j<num_dimensions; j++){
-            double factorial = 0.0;
+            double factorial = 0.0, log_half_gamma = 0.0; // see mapConformalCanonicalToTransformed()
             for(int k=0; k<=conformal_asin_power[j]; k++){
                 p[j][k] = (double)(2*k+1);
-                c[j][k] = std::lgamma(0.5 + ((double) k)) - lgamma_half - std::log(p[j][k]) - factorial;
+                c[j][k] = log_half_gamma - std::log(p[j][k]) - factorial;
                 cm[j] += std::exp(c[j][k]);
                 dp[j][k] = (double)(2*k);
-                dc[j][k] = std::lgamma(0.5 + ((double) k)) - lgamma_half - factorial;
+                dc[j][k] = log_half_gamma - factorial;
                 factorial += std::log((double)(k+1));
+                log_half_gamma += std::log(0.5 + ((double) k));
             }
         }
         for(int i=0; i<num_points; i++){
@@ -774,15 +776,15 @@ void TasmanianSparseGrid::mapConformalWeights(int num_dimensions, int num_points
             c[j].resize(conformal_asin_power[j] + 1);
             p[j].resize(conformal_asin_power[j] + 1);
         }
-        double lgamma_half = std::lgamma(0.5);
         std::vector<double> cm(num_dimensions);
         for(int j=0; j<num_dimensions; j++){
-            double factorial = 0.0;
+            double factorial = 0.0, log_half_gamma = 0.0; // see mapConformalCanonicalToTransformed()
             cm[j] = 0.0;
             for(int k=0; k<=conformal_asin_power[j]; k++){
                 p[j][k] = (double)(2*k);
-                c[j][k] = std::lgamma(0.5 + ((double) k)) - lgamma_half - factorial;
+                c[j][k] = log_half_gamma - factorial;
                 factorial += std::log((double)(k+1));
+                log_half_gamma += std::log(0.5 + ((double) k));
                 cm[j] += std::exp(c[j][k] - std::log((double)(2*k+1)));
             }
         }
